@@ -7,10 +7,19 @@
 // /tempo/spans (Zipkin JSON) and /v1/traces (OTLP protobuf)), the query goes through the REAL reader route
 // (/api/search, /api/v2/search/tags, /api/v2/search/tag/{tag}/values), the generated SQL is executed by chsql
 // and the answer is compared with Eval.  Every executed statement must parse and run.
+//
+// The evaluator (TraceQLSem part 3): a case carries the answer `cx` of the complexity query and the hash class
+// `part[ti]` of every trace.  The complexity statement of the request is executed by chsql like every other
+// statement (it must be valid) and, when cx > 0, answered with cx instead of the handful of rows a small database
+// counts; the trace ids are picked so that cityHash64(trace_id) % np is the class the case says.  The request
+// then runs in np portions on the SAME plan; every portion statement is executed by chsql, the number of
+// executions is compared with TraceQLSem!Portions and the merged answer with Eval.
 package main
 
 import (
 	"bufio"
+	"context"
+	"database/sql/driver"
 	"encoding/hex"
 	"encoding/json"
 	"errors"
@@ -32,6 +41,7 @@ import (
 
 	"verif/harness/chsql"
 	"verif/harness/e2e"
+	"verif/harness/fakesql"
 )
 
 // ---------------------------------------------------------------- abstract case (TLC export)
@@ -84,6 +94,9 @@ type Case struct {
 	I       int       `json:"i"`
 	Q       Query     `json:"q"`
 	Db      [][]Span  `json:"db"`
+	Cx      int64     `json:"cx"`   // answer of the complexity query (0 = whatever the database counts)
+	Np      int       `json:"np"`   // TraceQLSem!Portions(cx): 0 = one execution without random filter
+	Part    []int     `json:"part"` // hash class of every trace: cityHash64(trace_id) % np
 	Def     Outcome   `json:"def"`
 	Mech    []Outcome `json:"mech"`
 	Cand    bool      `json:"cand"`
@@ -393,12 +406,54 @@ type CSpan struct {
 	NumKinds map[string]int // key -> abstract numeric value (1|3), for the OTLP typed encoding
 }
 
-func traceID(ti int) []byte {
+func traceID(ti int, salt int) []byte {
 	b := make([]byte, 16)
 	copy(b, []byte{0xc1, 0x1c, 0x0f, 0xfe, 0xe0, 0x00, 0x27, 0x5c})
 	b[8] = byte(0xa0 + ti)
+	b[9] = byte(salt)
 	b[15] = byte(ti)
 	return b
+}
+
+// hashes[ti][salt] = cityHash64(traceID(ti, salt)) as chsql (= ClickHouse) computes it for the stored column
+const maxTraces, maxSalt = 4, 48
+
+var hashes [maxTraces + 1][maxSalt]uint64
+
+func initHashes(w *e2e.World) error {
+	for ti := 1; ti <= maxTraces; ti++ {
+		for salt := 0; salt < maxSalt; salt++ {
+			res, err := w.Store.DB.Query("SELECT cityHash64(unhex('" + hex.EncodeToString(traceID(ti, salt)) + "'))")
+			if err != nil {
+				return err
+			}
+			if len(res.Rows) != 1 || len(res.Rows[0]) != 1 {
+				return fmt.Errorf("cityHash64: unexpected answer %v", res.Rows)
+			}
+			h, ok := res.Rows[0][0].(uint64)
+			if !ok {
+				return fmt.Errorf("cityHash64: unexpected type %T", res.Rows[0][0])
+			}
+			hashes[ti][salt] = h
+		}
+	}
+	return nil
+}
+
+// salt of trace ti such that cityHash64(trace_id) % np == class
+func saltFor(ti, np, class int) (int, error) {
+	if np <= 1 {
+		return 0, nil
+	}
+	if ti > maxTraces {
+		return 0, fmt.Errorf("trace index %d too large", ti)
+	}
+	for salt := 0; salt < maxSalt; salt++ {
+		if int(hashes[ti][salt]%uint64(np)) == class {
+			return salt, nil
+		}
+	}
+	return 0, fmt.Errorf("no trace id of trace %d hashes to class %d of %d", ti, class, np)
 }
 func spanID(ti, si int, collide bool) []byte {
 	b := make([]byte, 8)
@@ -410,11 +465,21 @@ func spanID(ti, si int, collide bool) []byte {
 	return b
 }
 
-func (v *Variant) concreteDB(db [][]Span) []CSpan {
+func (v *Variant) concreteDB(db [][]Span, np int, part []int) ([]CSpan, error) {
 	var res []CSpan
 	for ti, tr := range db {
+		salt := 0
+		if np > 1 {
+			if ti >= len(part) {
+				return nil, fmt.Errorf("case without hash class for trace %d", ti+1)
+			}
+			var err error
+			if salt, err = saltFor(ti+1, np, part[ti]); err != nil {
+				return nil, err
+			}
+		}
 		for si, s := range tr {
-			c := CSpan{Ti: ti + 1, Si: si + 1, TraceID: traceID(ti + 1), SpanID: spanID(ti+1, si+1, v.Collide),
+			c := CSpan{Ti: ti + 1, Si: si + 1, TraceID: traceID(ti+1, salt), SpanID: spanID(ti+1, si+1, v.Collide),
 				TsNs: v.tick(s.Ts) * 1e9, DurNs: int64(s.Dur) * v.DurUnitUs * 1000, Service: "svc", NumKinds: map[string]int{}}
 			c.Name, _ = v.atomVal(s.Nm)
 			for _, kv := range [][2]string{{"a", s.A}, {"b", s.B}} {
@@ -431,7 +496,7 @@ func (v *Variant) concreteDB(db [][]Span) []CSpan {
 			res = append(res, c)
 		}
 	}
-	return res
+	return res, nil
 }
 
 // rows exactly as writer/utils/unmarshal/zipkinJsonUnmarshal.go + builder.go onSpan produce them
@@ -567,7 +632,7 @@ func writerEquivalence(w *e2e.World) (bool, string) {
 	db := [][]Span{{{A: "sx", B: "n3", Nm: "p", Dur: 1, Ts: 1}, {A: "none", B: "sy", Nm: "q", Dur: 3, Ts: 2}}, {{A: "n1", B: "none", Nm: "p", Dur: 3, Ts: 4}}}
 	for id := 0; id < 6; id++ {
 		v := mkVariant(id)
-		spans := v.concreteDB(db)
+		spans, _ := v.concreteDB(db, 0, nil)
 		skip := map[string]bool{"payload": true, "oid": true}
 		var dumps [2][]string
 		for i, path := range []string{"direct", "zipkin"} {
@@ -593,21 +658,46 @@ func writerEquivalence(w *e2e.World) (bool, string) {
 
 type Observed struct {
 	Status   int                 `json:"status"`
-	Err      string              `json:"err,omitempty"`       // "" | sql:<class> | http:<msg class> | panic
+	Err      string              `json:"err,omitempty"` // "" | sql:<class> | http:<msg class> | panic
 	ErrText  string              `json:"err_text,omitempty"`
-	Seq      []int               `json:"seq"`                 // trace indexes in answer order
-	Spans    map[int][]int       `json:"spans"`               // trace index -> span indexes
+	Seq      []int               `json:"seq"`   // trace indexes in answer order
+	Spans    map[int][]int       `json:"spans"` // trace index -> span indexes
 	Strs     []string            `json:"strs,omitempty"`
-	Unknown  []string            `json:"unknown,omitempty"`   // ids in the answer that are not in the database
+	Unknown  []string            `json:"unknown,omitempty"` // ids in the answer that are not in the database
 	SQL      []map[string]string `json:"sql,omitempty"`
 	Body     string              `json:"body,omitempty"`
 	Unsupp   []string            `json:"unsupported,omitempty"`
+	Cplx     int                 `json:"complexity_statements"` // complexity statements of the request
+	Execs    int                 `json:"executions"`            // executions of the plan (statements that are not the complexity query)
+	Filtered int                 `json:"filtered_executions"`   // ... that carry a random filter cityHash64(trace_id) % n
+}
+
+// the complexity statement of TraceQLComplexityEvaluator: the counts of the selectors' index scans
+// (EvalFinalizerPlanner: WITH pre_final AS (...) SELECT _count as _count FROM pre_final)
+var complexityRe = regexp.MustCompile(`(?is)\bSELECT\s+_count(\s+as\s+_count)?\s+FROM\s+pre_final\s*$`)
+
+func isComplexity(q string) bool { return complexityRe.MatchString(strings.TrimSpace(q)) }
+
+// a complexity statement over index scans (count() of rows): the only kind whose answer is scripted
+func countsRows(q string) bool { return isComplexity(q) && strings.Contains(q, "count()") }
+
+// scripted answer of the complexity query of the request in flight (0 = the real answer)
+var scriptedCx int64
+
+func wrapHandler(inner fakesql.Handler) fakesql.Handler {
+	return func(ctx context.Context, q string, args []driver.NamedValue) (*fakesql.Answer, error) {
+		a, err := inner(ctx, q, args) // executed (and recorded) by chsql whatever the scripted answer is
+		if err != nil || a == nil || scriptedCx == 0 || !countsRows(q) {
+			return a, err
+		}
+		return &fakesql.Answer{Cols: a.Cols, Rows: [][]driver.Value{{scriptedCx}}, ErrAt: -1}, nil
+	}
 }
 
 type Result struct {
 	H        int      `json:"h"`
 	Layer    string   `json:"layer"`
-	Verdict  string   `json:"verdict"` // ok | explained | unexplained | not_reproduced | infra
+	Verdict  string   `json:"verdict"` // ok | explained | unexplained | not_reproduced | infra | decision
 	Flags    []string `json:"flags,omitempty"`
 	Diff     string   `json:"diff,omitempty"`
 	Path     string   `json:"path"`
@@ -662,10 +752,21 @@ func runQuery(w *e2e.World, v *Variant, c *Case, spans []CSpan, tql string) Obse
 	}
 	w.Bridge.Drain()
 	w.Bridge.Unsupported = nil
+	scriptedCx = c.Cx
 	code, body, pan := safeGet(w, path+"?"+q.Encode())
+	scriptedCx = 0
 	obs.Status = code
 	for _, e := range w.Bridge.Drain() {
 		m := map[string]string{"sql": e.SQL}
+		if isComplexity(e.SQL) {
+			obs.Cplx++
+			m["role"] = "complexity"
+		} else {
+			obs.Execs++
+			if strings.Contains(e.SQL, "cityHash64(trace_id) %") {
+				obs.Filtered++
+			}
+		}
 		if e.Err != nil {
 			cl := sqlErrClass(e.Err)
 			m["err"] = e.Err.Error()
@@ -895,6 +996,28 @@ var errOfFlag = map[string]func(o *Observed) bool{
 }
 
 func (v *Variant) judge(c *Case, obs *Observed) (verdict, diff string) {
+	verdict, diff = v.judgeAnswer(c, obs)
+	if verdict == "unexplained" || verdict == "infra" {
+		return // a wrong answer is a verdict however the request was executed
+	}
+	if obs.Err == "" && c.Q.Kind == "search" {
+		// the evaluator's decision (TraceQLSem!Portions): one execution without random filter below the
+		// threshold, np executions with random filter otherwise; exactly one complexity statement
+		wantExecs, wantFiltered := 1, 0
+		if c.Np > 0 {
+			wantExecs, wantFiltered = c.Np, c.Np
+		}
+		if obs.Cplx != 1 || obs.Execs != wantExecs || obs.Filtered != wantFiltered {
+			// not a verdict about the property (which does not say how often the plan is executed): the
+			// evaluator model does not describe this run, so the case does not cover what it claims to cover
+			return "decision", fmt.Sprintf("complexity statements %d (1), executions %d (%d), with random filter %d (%d)",
+				obs.Cplx, obs.Execs, wantExecs, obs.Filtered, wantFiltered)
+		}
+	}
+	return
+}
+
+func (v *Variant) judgeAnswer(c *Case, obs *Observed) (verdict, diff string) {
 	if len(obs.Unsupp) > 0 {
 		return "infra", "chsql unsupported: " + obs.Unsupp[0]
 	}
@@ -990,6 +1113,11 @@ func main() {
 		os.Exit(2)
 	}
 	defer w.Close()
+	w.SQL.Handler = wrapHandler(w.SQL.Handler)
+	if err := initHashes(w); err != nil {
+		fmt.Fprintln(os.Stderr, "hashes:", err)
+		os.Exit(2)
+	}
 
 	out := map[string]any{}
 	if *shard == 0 {
@@ -1034,13 +1162,20 @@ func main() {
 		vid := (*seed*7919 + c.H) % 4096
 		v := mkVariant(vid)
 		variants[vid] = true
-		spans := v.concreteDB(c.Db)
+		spans, err := v.concreteDB(c.Db, c.Np, c.Part)
+		if err != nil {
+			fmt.Fprintf(os.Stderr, "case line %d: %v\n", line, err)
+			os.Exit(2)
+		}
 		tql, err := v.renderQuery(c.Q)
 		if err != nil {
 			fmt.Fprintln(os.Stderr, err)
 			os.Exit(2)
 		}
 		dbKey := fmt.Sprint(vid, c.Db)
+		if c.Np > 1 {
+			dbKey = fmt.Sprint(vid, c.Db, c.Np, c.Part)
+		}
 		path := "direct"
 		if dbKey != lastDB {
 			dbCount++
@@ -1067,7 +1202,7 @@ func main() {
 			byLayer[c.Layer] = map[string]int{}
 		}
 		byLayer[c.Layer][verdict]++
-		distinct[tql+"\x00"+dbKey] = true
+		distinct[tql+"\x00"+dbKey+"\x00"+strconv.FormatInt(c.Cx, 10)] = true
 		for _, s := range c.Q.Sels {
 			features["shape:"+s.Sh]++
 			if s.Agg.Fn != "none" {
@@ -1086,6 +1221,17 @@ func main() {
 			features["chain:"+o]++
 		}
 		features["kind:"+c.Q.Kind]++
+		features["np:"+strconv.Itoa(c.Np)]++
+		if c.Cx > 0 {
+			features["cx:"+strconv.FormatInt(c.Cx, 10)]++
+		}
+		if c.Np > 1 {
+			cls := map[int]bool{}
+			for _, p := range c.Part {
+				cls[p] = true
+			}
+			features["split:"+strconv.Itoa(len(cls))+"-of-"+strconv.Itoa(c.Np)]++
+		}
 		res := Result{H: c.H, Layer: c.Layer, Verdict: verdict, Diff: diff, Path: path, Variant: vid, TraceQL: tql, ErrClass: obs.Err}
 		if verdict == "explained" {
 			res.Flags = c.Explain
@@ -1101,7 +1247,8 @@ func main() {
 			detailCount[key]++
 			if detailCount[key] <= *maxDetail {
 				res.Detail = map[string]any{"case": c, "data": describeDB(spans), "observed": obs,
-					"window": []int64{v.tick(c.Q.From), v.tick(c.Q.To)}, "limit": c.Q.Limit, "variant": v}
+					"window": []int64{v.tick(c.Q.From), v.tick(c.Q.To)}, "limit": c.Q.Limit, "variant": v,
+					"complexity_answer": c.Cx, "portions": c.Np, "hash_class_of_trace": c.Part}
 			}
 			results = append(results, res)
 		} else if len(samples) < 3 && len(obs.Seq) > 0 {
